@@ -294,7 +294,8 @@ def mutate(rng, argv, tool):
     elif kind == "unknown":
         argv.insert(rng.randrange(n + 1),
                     rng.choice(["--bogus", "-Z", "--seed", "-o", "-of",
-                                "--output-format"]))
+                                "--output-format", "{}", "--{x}", "%d",
+                                "{0}", "\\n"]))
     elif kind == "late_option":
         argv.append(rng.choice(["-q", "--seed", "-v", "--varnames", "-o",
                                 "-of", "opb", "-S", "3"]))
@@ -307,7 +308,9 @@ def mutate(rng, argv, tool):
     elif kind == "badfile":
         names = ["nosuch.kthlist", "adir", "adir.kthlist", "nosuch",
                  "s.kthlist", "d.kthlist", "b.matrix", "f.cnf", "s.gml",
-                 "b.dot", "-", "kthlist", "gml", "save"]
+                 "b.dot", "-", "kthlist", "gml", "save", "{}", "g{0}.gml",
+                 "graph_{n}.kthlist", "%s.dot", "%(x)s", "a b.gml",
+                 "caf\u00e9.gml", "{"]
         idx = [i for i, a in enumerate(argv) if "." in a and not
                NUM.match(a)]
         if idx and rng.random() < 0.7:
